@@ -72,6 +72,12 @@ type C11Run struct {
 	Weights     [5]uint8    `json:"order_weights"`
 	Explicit    []DecisionJ `json:"schedule,omitempty"`
 	NoSentinel  bool        `json:"no_sentinel,omitempty"`
+	// ConcurrentFirst: the simulated concurrent phase is the first use of the
+	// library's validation/coercion/formatting code in this process (the solo
+	// reference executions run afterwards). Cold runs execute in a fresh child
+	// process, so lazily initialised package-level state is still cold when the
+	// tasks meet it.
+	ConcurrentFirst bool `json:"concurrent_first,omitempty"`
 	YieldBudget uint64      `json:"yield_budget,omitempty"`
 }
 
@@ -212,6 +218,8 @@ func execOp(c *opCtx, op *C11Op) (result string) {
 		}
 	}()
 	switch op.Kind {
+	case "helpers":
+		renderHelpers(&b, c.schema, gen.NewRng(op.RulesSeed))
 	case "fmtschema":
 		w := &simWriter{}
 		formatter.NewFormatter(w, fmtOptions(op.FmtOpts)...).FormatSchema(c.schema)
@@ -254,6 +262,10 @@ func execOp(c *opCtx, op *C11Op) (result string) {
 					gen.RenderValue(&b, out)
 					if i == 0 {
 						coerced = out
+					} else {
+						// the caller owns what it was handed: scribbling on it must
+						// not show anywhere else
+						gen.Scribble(out)
 					}
 				}
 				b.WriteByte('\n')
@@ -261,6 +273,11 @@ func execOp(c *opCtx, op *C11Op) (result string) {
 		}
 		if op.ArgMaps {
 			gen.RenderArgMaps(&b, doc, coerced)
+			if op.FmtOpts&1 != 0 {
+				// resolve everything a second time: results the caller scribbled on
+				// (RenderArgMaps does after rendering) must come back intact
+				gen.RenderArgMaps(&b, doc, coerced)
+			}
 		}
 		if op.FmtDoc {
 			w := &simWriter{}
@@ -269,6 +286,105 @@ func execOp(c *opCtx, op *C11Op) (result string) {
 		}
 	}
 	return b.String()
+}
+
+// renderHelpers performs the read-only lookups an executor makes on the shared
+// schema while serving requests (kind predicates, possible types, implements,
+// field/argument/enum-value lookups, type strings, default values).
+func renderHelpers(b *strings.Builder, schema *ast.Schema, r *gen.Rng) {
+	names := make([]string, 0, len(schema.Types))
+	for n := range schema.Types {
+		names = append(names, n)
+	}
+	sort.Strings(names)
+	for i := 0; i < 6 && len(names) > 0; i++ {
+		def := schema.Types[gen.Pick(r, names)]
+		b.WriteString(def.Name + ":" + string(def.Kind))
+		if def.IsLeafType() {
+			b.WriteString(" leaf")
+		}
+		if def.IsAbstractType() {
+			b.WriteString(" abstract")
+		}
+		if def.IsCompositeType() {
+			b.WriteString(" composite")
+		}
+		if def.IsInputType() {
+			b.WriteString(" input")
+		}
+		if def.OneOf("Int", "String", "Query") {
+			b.WriteString(" oneof")
+		}
+		b.WriteString(" possible=[")
+		for _, p := range schema.GetPossibleTypes(def) {
+			b.WriteString(p.Name + " ")
+		}
+		b.WriteString("] implements=[")
+		for _, p := range schema.GetImplements(def) {
+			b.WriteString(p.Name + " ")
+		}
+		b.WriteString("]")
+		if d := def.Directives.ForName("deprecated"); d != nil {
+			b.WriteString(" deprecated")
+		}
+		b.WriteString(" dirs=" + strconv.Itoa(len(def.Directives.ForNames(gen.Pick(r, []string{"auth", "cache", "tagged", "oneOf"})))))
+		if len(def.Fields) > 0 {
+			f := gen.Pick(r, def.Fields)
+			g := def.Fields.ForName(f.Name)
+			b.WriteString(" " + g.Name + ":" + g.Type.String() + "/" + g.Type.Name())
+			if other := gen.Pick(r, def.Fields); other.Type.IsCompatible(g.Type) {
+				b.WriteString(" compat")
+			}
+			if g.DefaultValue != nil {
+				v, err := g.DefaultValue.Value(nil)
+				b.WriteString(" default=" + g.DefaultValue.String() + "=")
+				gen.RenderValue(b, v)
+				gen.Scribble(v)
+				if err != nil {
+					b.WriteString(" err")
+				}
+			}
+			for _, a := range g.Arguments {
+				ad := g.Arguments.ForName(a.Name)
+				b.WriteString(" (" + ad.Name + ":" + ad.Type.String())
+				if ad.DefaultValue != nil {
+					v, _ := ad.DefaultValue.Value(nil)
+					b.WriteString("=")
+					gen.RenderValue(b, v)
+					gen.Scribble(v)
+				}
+				b.WriteString(")")
+			}
+		}
+		if len(def.EnumValues) > 0 {
+			ev := gen.Pick(r, def.EnumValues)
+			if def.EnumValues.ForName(ev.Name) != nil {
+				b.WriteString(" ev=" + ev.Name)
+			}
+		}
+		b.WriteByte('\n')
+	}
+	dnames := make([]string, 0, len(schema.Directives))
+	for n := range schema.Directives {
+		dnames = append(dnames, n)
+	}
+	sort.Strings(dnames)
+	if len(dnames) > 0 {
+		d := schema.Directives[gen.Pick(r, dnames)]
+		b.WriteString("@" + d.Name)
+		for _, a := range d.Arguments {
+			if d.Arguments.ForName(a.Name) != nil {
+				b.WriteString(" " + a.Name + ":" + a.Type.String())
+			}
+		}
+		b.WriteByte('\n')
+	}
+	if schema.Query != nil {
+		b.WriteString("query=" + schema.Query.Name + "\n")
+	}
+	if r.Chance(1, 4) && len(names) > 0 {
+		b.WriteString(ast.Dump(schema.Types[gen.Pick(r, names)]))
+	}
 }
 
 // ---------- one simulated run ----------
@@ -296,12 +412,12 @@ type runResult struct {
 	SchedHash  uint64         `json:"sched_hash"`
 	PathHash   uint64         `json:"path_hash"`
 	Overlaps   map[string]int `json:"overlaps,omitempty"`
-	SitePairs  []uint64       `json:"-"`
+	SitePairs  []uint64       `json:"site_pairs,omitempty"`
 	OverBudget bool           `json:"over_budget"`
 	SchemaErr  string         `json:"schema_error,omitempty"`
 	ResultHash uint64         `json:"result_hash"`
 	RaceText   string         `json:"-"`
-	EvLog      []string       `json:"-"`
+	EvLog      []string       `json:"evlog,omitempty"`
 }
 
 type raceLog struct {
@@ -439,7 +555,7 @@ func prepareVars(spec *C11Run) ([][]map[string]interface{}, error) {
 	for t, task := range spec.Tasks {
 		vars[t] = make([]map[string]interface{}, len(task.Ops))
 		for k, op := range task.Ops {
-			if op.Kind == "fmtschema" || op.Doc == "" {
+			if op.Kind == "fmtschema" || op.Kind == "helpers" || op.Doc == "" {
 				continue
 			}
 			d, err := parser.ParseQuery(&ast.Source{Input: op.Doc})
@@ -470,20 +586,25 @@ func execRun(spec *C11Run, rl *raceLog) (res runResult) {
 	ref, _ := loadSchemaText(spec.Schema)
 	n := len(spec.Tasks)
 	// ---- solo executions: the sequential specification ----
-	refFP := gen.TakeFingerprint(ref, false)
 	want := make([][]string, n)
-	for t := range spec.Tasks {
-		want[t] = make([]string, len(spec.Tasks[t].Ops))
-		for k := range spec.Tasks[t].Ops {
-			want[t][k] = execOp(&opCtx{ref, vars[t][k], spec.Seed, t, k, spec.Weights}, &spec.Tasks[t].Ops[k])
+	runSolo := func() {
+		refFP := gen.TakeFingerprint(ref, false)
+		for t := range spec.Tasks {
+			want[t] = make([]string, len(spec.Tasks[t].Ops))
+			for k := range spec.Tasks[t].Ops {
+				want[t][k] = execOp(&opCtx{ref, vars[t][k], spec.Seed, t, k, spec.Weights}, &spec.Tasks[t].Ops[k])
+			}
+		}
+		res.Snapshots++
+		if fp := gen.TakeFingerprint(ref, false); fp.Hash != refFP.Hash {
+			a := gen.TakeFingerprint(mustLoad(spec.Schema), true)
+			b := gen.TakeFingerprint(ref, true)
+			x, y := gen.FirstDiff(a, b)
+			res.Violations = append(res.Violations, C11Violation{"drift", "drift:" + generalisePath(pathOf(x, y)), "sequential history: schema changed after the solo executions: " + x + "  ->  " + y})
 		}
 	}
-	res.Snapshots++
-	if fp := gen.TakeFingerprint(ref, false); fp.Hash != refFP.Hash {
-		a := gen.TakeFingerprint(mustLoad(spec.Schema), true)
-		b := gen.TakeFingerprint(ref, true)
-		x, y := gen.FirstDiff(a, b)
-		res.Violations = append(res.Violations, C11Violation{"drift", "drift:" + generalisePath(pathOf(x, y)), "sequential history: schema changed after the solo executions: " + x + "  ->  " + y})
+	if !spec.ConcurrentFirst {
+		runSolo()
 	}
 	// ---- concurrent execution under the simulator ----
 	fp0 := gen.TakeFingerprint(schema, true)
@@ -656,6 +777,9 @@ func execRun(spec *C11Run, rl *raceLog) (res runResult) {
 			}
 		}
 	}
+	if spec.ConcurrentFirst {
+		runSolo()
+	}
 	// oracle 3: isolation of results
 	var rh uint64
 	for t := 0; t < n; t++ {
@@ -695,6 +819,32 @@ func execRun(spec *C11Run, rl *raceLog) (res runResult) {
 }
 
 var sentinelSink uint64
+
+// execCold executes one run in a fresh child process (concurrent phase first).
+func execCold(spec *C11Run, dir, racelog string, worker int) runResult {
+	tmp := fmt.Sprintf("%s/cold-w%d.json", dir, worker)
+	tmpRes := tmp + ".res"
+	writeJSON(tmp, c11Replay{Format: "verif-c11-replay/1", Property: "C11", Run: spec})
+	args := []string{"c11-replay", "--quiet", "--out", tmpRes, "--racelog", racelog}
+	if evlogOn {
+		args = append(args, "--evlog")
+	}
+	if noIsolation {
+		args = append(args, "--no-isolation")
+	}
+	cmd := exec.Command(os.Args[0], append(args, tmp)...)
+	cmd.Env = os.Environ()
+	var se strings.Builder
+	cmd.Stderr = &se
+	err := cmd.Run()
+	var res runResult
+	b, rerr := os.ReadFile(tmpRes)
+	os.Remove(tmpRes)
+	if rerr != nil || json.Unmarshal(b, &res) != nil {
+		fatal(2, "cold run (seed %d) produced no result: %v\n%s", spec.Seed, err, se.String())
+	}
+	return res
+}
 
 func firstN(s string, n int) string {
 	if len(s) > n {
@@ -777,7 +927,10 @@ func genRun(seed uint64, source string) *C11Run {
 		no := r.Range(1, maxOps)
 		for k := 0; k < no; k++ {
 			var op C11Op
-			switch r.Weighted([]int{5, 4, 2}) {
+			switch r.Weighted([]int{5, 4, 2, 2}) {
+			case 3:
+				op.Kind = "helpers"
+				op.RulesSeed = r.U64()
 			case 0:
 				op.Kind = "query"
 			case 1:
@@ -787,7 +940,7 @@ func genRun(seed uint64, source string) *C11Run {
 			case 2:
 				op.Kind = "fmtschema"
 			}
-			if op.Kind != "fmtschema" {
+			if op.Kind != "fmtschema" && op.Kind != "helpers" {
 				op.Doc = gen.Pick(r, docs)
 				op.VarsSeed = r.U64()
 				op.Coerce = r.Chance(2, 3)
@@ -894,6 +1047,7 @@ type c11Stats struct {
 	OpsAborted     int            `json:"ops_aborted"`
 	OpsCompared    int            `json:"ops_compared"`
 	OverBudget     int            `json:"runs_over_budget"`
+	ColdRuns       int            `json:"cold_runs"`
 	SchedHashes    []uint64       `json:"sched_hashes"`
 	SitePairs      int            `json:"distinct_site_pairs"`
 	SitePairList   []uint64       `json:"site_pairs,omitempty"`
@@ -927,6 +1081,7 @@ func c11Main(args []string) {
 	known := fs.String("known", "", "known classes separated by ;;")
 	racelog := fs.String("racelog", "", "GORACE log_path prefix (the file is <prefix>.<pid>)")
 	evlog := fs.Bool("evlog", false, "record full event logs (determinism self-test)")
+	coldEvery := fs.Int("cold-every", 4, "every n-th run executes in a fresh child process with the concurrent phase first (0 = never)")
 	noIso := fs.Bool("no-isolation", false, "switch the isolation oracle off (the census found clock/randomness use in library code)")
 	fs.Parse(args)
 	if !instrumented() {
@@ -967,7 +1122,14 @@ func c11Main(args []string) {
 			st.FirstRunSeed = rseed
 		}
 		st.LastRunSeed = rseed
-		res := execRun(spec, rl)
+		var res runResult
+		if *coldEvery > 0 && n%*coldEvery == *coldEvery-1 {
+			spec.ConcurrentFirst = true
+			res = execCold(spec, *replayDir, *racelog, *worker)
+			st.ColdRuns++
+		} else {
+			res = execRun(spec, rl)
+		}
 		if res.SchemaErr != "" {
 			st.RunsSkipped++
 			continue
@@ -1060,10 +1222,14 @@ func c11ReplayMain(args []string) {
 	out := fs.String("out", "", "write the outcome as JSON")
 	racelog := fs.String("racelog", "", "GORACE log_path prefix")
 	quiet := fs.Bool("quiet", false, "no stdout")
+	evl := fs.Bool("evlog", false, "record the full event log in the result")
+	noIso := fs.Bool("no-isolation", false, "switch the isolation oracle off")
 	fs.Parse(args)
 	if fs.NArg() != 1 {
 		fatal(2, "usage: sim c11-replay [-out f] <replay.json>")
 	}
+	evlogOn = *evl
+	noIsolation = noIsolation || *noIso
 	var rp c11Replay
 	readJSON(fs.Arg(0), &rp)
 	if rp.Run == nil {
